@@ -174,6 +174,7 @@ type Profile struct {
 	// Config biases
 	ForceKeys, ForceTimes, ForceMono bool
 	ForceSingle                      bool
+	ForceMixed                       bool // never a single-version case, reopen steps prefer the other version
 	SmallKeys                        bool
 	RelTime                          bool
 	NoZeroTime                       bool
@@ -213,7 +214,7 @@ var Profiles = map[string]*Profile{
 	"C13": {Name: "C13", Prop: "C13", Weights: weights(map[string]int{"backup": 0, "ro": 2, "reopen": 14}), Own: own("stat", "size", "layout")},
 	"C15": {Name: "C15", Prop: "C15", Weights: weights(map[string]int{"trim": 25, "delete": 12, "compact": 1, "backup": 0, "ro": 0}), Own: own("trim")},
 	"C16": {Name: "C16", Prop: "C16", Weights: weights(map[string]int{"compact": 25, "trim": 1, "delete": 6, "backup": 0, "ro": 0, "migrate": 1, "pkg": 1}), Own: own("compact"), SmallKeys: true, RelTime: true, NoZeroTime: true},
-	"C17": {Name: "C17", Prop: "C17", Weights: weights(map[string]int{"migrate": 12, "reopen": 16, "delete": 18, "trim": 2, "compact": 2, "backup": 0, "ro": 1}), Own: own("version", "migrate", "scan", "next", "consume", "get", "key", "time", "layout")},
+	"C17": {Name: "C17", Prop: "C17", Weights: weights(map[string]int{"migrate": 12, "reopen": 16, "delete": 18, "trim": 2, "compact": 2, "backup": 0, "ro": 1}), Own: own("version", "migrate", "scan", "next", "consume", "get", "key", "time", "layout"), ForceMixed: true},
 	"C19": {Name: "C19", Prop: "C19", Weights: weights(map[string]int{"ro": 20, "backup": 0, "trim": 3, "compact": 2}), Own: own("ro")},
 	"C20": {Name: "C20", Prop: "C20", Weights: weights(map[string]int{"backup": 22, "trim": 3, "compact": 2, "ro": 0}), Own: own("backup")},
 }
